@@ -13,7 +13,7 @@ package searcher
 // pairwise quantifiers.
 //@ ghostfield search.DocumentMatch.cowner search.Searcher
 //@ uf childIdx(sr search.Searcher) int
-//@ spec conjShape(s *ConjunctionSearcher) bool = len(s.currs) == len(s.searchers) && forall(k, 0, len(s.searchers), s.searchers[k] != nil && s.searchers[k] != s && childIdx(s.searchers[k]) == k)
+//@ spec conjShape(s *ConjunctionSearcher) bool = len(s.currs) == len(s.searchers) && 0 <= s.maxIDIdx && forall(k, 0, len(s.searchers), s.searchers[k] != nil && s.searchers[k] != s && childIdx(s.searchers[k]) == k)
 //@ spec slotOK(s *ConjunctionSearcher, k int) bool = implies(s.currs[k] != nil, s.searchers[k].started && !s.searchers[k].done && s.searchers[k].last == dmKey(s.currs[k]) && s.currs[k].cowner == s.searchers[k]) && \
 //@     implies(s.currs[k] == nil, s.searchers[k].done)
 // before the first call the children have not been touched
@@ -73,10 +73,10 @@ package searcher
 //@   loop 0: invariant forall(k, 0, len(s.searchers), implies(old(s.initialized) && old(s.currs[k]) != nil && s.currs[k] != nil, dmKey(s.currs[k]) >= old(dmKey(s.currs[k])))) && forall(k, 0, len(s.searchers), implies(old(s.initialized) && old(s.currs[k]) == nil, s.currs[k] == nil))
 //@   loop 1: invariant rv == nil && conjLoop(ctx, s) && s.currs == old(s.currs) && s.searchers == old(s.searchers) && s.scorer == old(s.scorer) && s.started == old(s.started) && s.last == old(s.last) && s.done == old(s.done)
 //@   loop 1: invariant forall(k, 0, len(s.searchers), implies(old(s.initialized) && old(s.currs[k]) != nil && s.currs[k] != nil, dmKey(s.currs[k]) >= old(dmKey(s.currs[k])))) && forall(k, 0, len(s.searchers), implies(old(s.initialized) && old(s.currs[k]) == nil, s.currs[k] == nil))
-//@   loop 1: invariant 0 <= i && i <= len(s.currs) && 0 <= s.maxIDIdx && s.maxIDIdx < len(s.currs) && s.currs[s.maxIDIdx] != nil && maxID == s.currs[s.maxIDIdx].IndexInternalID && forall(k, 0, i, s.currs[k] != nil && dmKey(s.currs[k]) == idKey(maxID))
+//@   loop 1: invariant 0 <= i && i <= len(s.currs) && 0 <= s.maxIDIdx && s.maxIDIdx < len(s.currs) && s.currs[s.maxIDIdx] != nil && idKey(maxID) == dmKey(s.currs[s.maxIDIdx]) && forall(k, 0, i, s.currs[k] != nil && dmKey(s.currs[k]) == idKey(maxID))
 //@   loop 2: invariant rv == nil && conjLoop(ctx, s) && s.currs == old(s.currs) && s.searchers == old(s.searchers) && s.scorer == old(s.scorer) && s.started == old(s.started) && s.last == old(s.last) && s.done == old(s.done)
 //@   loop 2: invariant forall(k, 0, len(s.searchers), implies(old(s.initialized) && old(s.currs[k]) != nil && s.currs[k] != nil, dmKey(s.currs[k]) >= old(dmKey(s.currs[k])))) && forall(k, 0, len(s.searchers), implies(old(s.initialized) && old(s.currs[k]) == nil, s.currs[k] == nil))
-//@   loop 2: invariant 0 <= x && x <= i && i == s.maxIDIdx && i < len(s.currs) && s.currs[i] != nil && maxID == s.currs[i].IndexInternalID && forall(k, x, i, s.currs[k] != nil && dmKey(s.currs[k]) < idKey(maxID))
+//@   loop 2: invariant 0 <= x && x <= i && i == s.maxIDIdx && i < len(s.currs) && s.currs[i] != nil && idKey(maxID) == dmKey(s.currs[i]) && forall(k, x, i, s.currs[k] != nil && dmKey(s.currs[k]) < idKey(maxID))
 //@   loop 3: invariant rv != nil && s.initialized && conjShape(s) && poolApart(ctx, s) && s.currs == old(s.currs) && s.searchers == old(s.searchers) && s.started == old(s.started) && s.last == old(s.last) && s.done == old(s.done) && implies(s.started, dmKey(rv) > s.last)
 //@   loop 3: invariant len(s.searchers) > 0 && forall(k, 0, len(s.searchers), implies(old(s.initialized), old(s.currs[k]) != nil && dmKey(rv) >= old(dmKey(s.currs[k]))))
 //@   loop 3: invariant forall(k, 0, iter, slotOK(s, k) && implies(s.currs[k] != nil, dmKey(s.currs[k]) > dmKey(rv))) && forall(k, iter, len(s.searchers), s.currs[k] != nil && slotOK(s, k) && dmKey(s.currs[k]) == dmKey(rv) && implies(k > 0, s.currs[k] != rv)) && implies(iter == 0, s.currs[0] == rv)
